@@ -15,14 +15,16 @@ from verif.contracts.common import (Obligation, Result, PROVED, REFUTED, UNDECID
 from verif.engine import pathexec as px
 
 LEVEL = 'other'
-EXPECTED_MIN = {'quick': 10, 'thorough': 16}
+EXPECTED_MIN = {'quick': 12, 'thorough': 18}
 EXPLANATION = ('PROVED: validate_model rejects every model exhibiting one of 16 unsupported-feature predicates, wherever the feature sits, for all '
                'real-valued field values, at every enumerated model structure (path-exhaustive execution of the real function, z3 on path conditions); the '
-               'validate_model call dominates each native pipeline init (AST); System index helpers agree with the per-type widths for all type strings <= 6. '
+               'validate_model call dominates each native pipeline init (AST); System index helpers agree with the per-type widths for all type strings <= 6; load_model (the real function on a proxy MjModel with symbolic '
+               'real-valued fields, enumerated structures of 1-3 bodies) builds a System whose link types, parents, coordinate widths, link frames, joint anchors, inertias, dof axes / limits / stiffness / '
+               'armature / damping, actuator indices / gains / ranges and init_q are the source-model values, for all field values. '
                'BOUNDED (not proof): mjcf.loads + pipeline.init on generated XML documents with one injected feature, and structural facts of accepted models vs MuJoCo.')
 TRUSTED = ['the feature predicates F_k are my reading of the property text', 'numpy object-array semantics (any/all/==) on proxies']
 ASSUMPTIONS = ['model sizes njnt <= 3, ngeom <= 2, nu <= 2 (structure enumerated, values symbolic)',
-               'load_model (MuJoCo compiler + mjx.put_model) is covered only by the bounded stand-in',
+               'the MuJoCo compiler (XML -> MjModel) is covered only by the bounded stand-in; in the load_model clause mjx.put_model and the final jax.tree.map(jp.array, sys) are shimmed (dropped: device model / placement)',
                'jnt_range / jnt_limited / contype / conaffinity are enumerated concretely']
 BOUNDED_RULE = 'generated MJCF documents (clean or with exactly one unsupported feature injected) x 3 pipeline inits; non-trivial = distinct (document, feature) pairs'
 
@@ -328,7 +330,8 @@ def system_helpers():
 def obligations(tier):
   ns = 8 if tier == 'quick' else 14
   obs = [rejects(tier, k, ns) for k in range(ns)] + [init_dominates(), system_helpers()]
-  from verif.contracts import C14b
+  from verif.contracts import C14b, C14c
+  obs += C14c.obligations(tier)
   obs += C14b.obligations(tier)
 
   def canary():
